@@ -30,10 +30,10 @@ from ..core import pool_map
 
 MODULE = "chan/Tdl.tla"
 TOL = 1e-9
-LAWS = ["DiscLaw", "BlockLaw", "PosLaw", "SetLaw", "ChanLaw", "FrameLaw"]
+LAWS = ["DiscLaw", "SharedLaw", "BlockLaw", "PosLaw", "SetLaw", "ChanLaw", "FrameLaw"]
 DEVS = ["DiscRoundHalfUp", "DiscMergeKeepsLast", "DiscNoNormalise", "NoSkipBetweenBlocks", "PathlossNotInReported",
         "ShiftByTapIndex", "SwitchedNotTransposed", "TailDropped", "SliceBlockSizeFloorDiv", "MuSetPathlossNoneRaises",
-        "PathlossZeroIsNone", "OutputBufferReused", "ArgumentScaledInPlace"]
+        "PathlossZeroIsNone", "OutputBufferReused", "ArgumentScaledInPlace", "DiscMemoRoundedTs"]
 # real deviations of the code (the others are plausible regressions used to show the laws are not vacuous)
 REAL_DEVS = {"SetNumAntennasNoneRaises": "set_num_antennas(None, None) (documented: back to SISO) leaves the fading generator with shape "
                                          "(taps, None, None); the next transmission raises TypeError",
@@ -117,6 +117,27 @@ def base_cfg(cid, kind, prof, ant, users=(1, 1), pls=(), ops=(), variant=0, maxp
 def disc_cfg(cid, ntaps, qds, pws, q1, ts):
     c = base_cfg(cid, "disc", "flat", (0, 0), maxpos=0, ts=ts)
     c.update(ntaps=ntaps, qds=set(qds), pws={tuple(p) for p in pws}, q1=set(q1))
+    return c
+
+
+# sampling intervals as exact multiples a/b of the nominal one: the nominal, a clock 20 ppm slow / fast (prints alike with 4
+# significant digits), 7 ppm fast, and a grossly different one
+SCALES = [(1, 1), (50001, 50000), (49999, 50000), (3, 2), (142857, 142858)]
+
+
+def ts_of(c, t):
+    a, b = c["tss"][t - 1]
+    return TS[c["ts"]] * a / b
+
+
+def dhist_cfg(cid, prof, ts, scales, maxreq):
+    """ONE profile object discretised for a history of sampling intervals (every order, up to maxreq requests)"""
+    c = base_cfg(cid, "dhist", prof, (0, 0), maxpos=0, ts=ts)
+    c["tss"] = [list(x) for x in scales]
+    c["maxreq"] = maxreq
+    # the equivalence the memoising deviation confuses: intervals that PRINT alike with 4 significant digits
+    keys = [float("%.4g" % (TS[ts] * a / b)) for a, b in scales]
+    c["tkeys"] = [1 + sorted(set(keys)).index(k) for k in keys]
     return c
 
 
@@ -247,6 +268,15 @@ def configs_for(tier, seed):
         allsl2 = [op("F", 1, 2, 2, "slice", sl(a, b, c)) for a in (None, -2, -1, 0, 1, 2) for b in (None, -3, -1, 0, 1, 2)
                   for c in (None, 1, 2, -1, -2) if len(range(*slice(a, b, c).indices(2))) > 0]
         add("su", "two01", (1, 2), pls=su_pls, ops=allsl2 + [op("PL", n=2), op("PL", n=3)], variant=5, maxpos=4)
+    # --- one (shared) profile object discretised for several nearly equal sampling intervals, in every order; taps at and
+    #     near half-sample boundaries of the nominal interval (qd = 2, 6, 10, 14), where a few ppm change the integer delay
+    dh = [[[2, [1, 2]], [6, [1, 3]], [12, [1, 6]]],
+          [[0, [1, 1]], [10, [2, 1]], [5, [1, 2]], [14, [1, 4]]],
+          [[6, [3, 1]], [2, [1, 1]]],
+          [[1, [1, 1]], [3, [1, 2]], [9, [2, 3]]]]
+    for q, prof in enumerate(dh if thorough else dh[:3]):
+        cid[0] += 1
+        cfgs.append(dhist_cfg(cid[0], prof, "dy" if q % 2 == 0 else "one", SCALES if thorough else SCALES[:4], 3))
     # --- discretisation stars
     if thorough:
         fam = [(1, range(0, 14), [(1, 1), (1, 2), (5, 3)], None, "dy"),
@@ -286,6 +316,8 @@ def tables(seed, tlen, nlinks=6, ntap=4, nant=3, nsig_users=3, maxn=8):
 
 def tla_cfg(c):
     d = {k: v for k, v in c.items() if k not in ("pname", "ts", "variant", "none_route", "default_route")}
+    for k, v in (("tss", [[1, 1]]), ("tkeys", [1]), ("maxreq", 0)):
+        d.setdefault(k, v)
     return d
 
 
@@ -671,6 +703,55 @@ def run_path(job):
     return okc, viol, finds
 
 
+def run_dhist(job):
+    """job = (cfg, [emitted DiscS edges of one history]) -> (n_ok, [descriptions]).  ONE raw TdlChannelProfile object is
+    discretised for the history's sampling intervals - directly, and through the constructors of the channel classes -
+    and every result is compared with the emitted discretisation for ITS interval; the raw profile and the results
+    returned earlier must stay unchanged."""
+    from pyphysim.channels import fading, singleuser, multiuser
+    c, path = job
+    TableGen = make_table_gen()
+    dB = np.array([to_dB(p) for _, p in c["prof"]])
+    delays = np.array([q / 4.0 for q, _ in c["prof"]]) * TS[c["ts"]]
+    okc, kept = 0, []
+    try:
+        raw = fading.TdlChannelProfile(dB, delays, "shared")
+        raw0 = (np.array(raw.tap_delays), np.array(raw.tap_powers_dB))
+        for i, e in enumerate(path):
+            t = e["op"]["t"]
+            ts = ts_of(c, t)
+            how = (i + t + c["id"]) % 4
+            if how == 0:
+                d = raw.get_discretize_profile(ts)
+            elif how == 1:
+                d = fading.TdlChannel(TableGen(np.zeros((1, 1, 1, 1, 1), dtype=complex)), channel_profile=raw, Ts=ts).channel_profile
+            elif how == 2:
+                d = singleuser.SuChannel(TableGen(np.zeros((1, 1, 1, 1, 1), dtype=complex)), channel_profile=raw, Ts=ts).channel_profile
+            else:
+                d = multiuser.MuChannel(2, TableGen(np.zeros((1, 1, 1, 1, 1), dtype=complex)), channel_profile=raw, Ts=ts).channel_profile
+            want_d = e["exp"]["disc"]["delays"]
+            want_p = np.array([Fraction(*q) for q in e["exp"]["disc"]["powers"]], dtype=float)
+            got_d = np.asarray(d.tap_delays)
+            hist = [x["op"]["t"] for x in path[:i]]
+            where = f"request {i + 1} (interval {c['tss'][t - 1][0]}/{c['tss'][t - 1][1]} x Ts = {ts!r}, after requests for {[ts_of(c, u) for u in hist]})"
+            if got_d.dtype.kind not in "iu" or got_d.tolist() != list(want_d):
+                return okc, [f"{where}: discretised delays {got_d.tolist()} differ from the unique sorted nearest-even delays {want_d} for THIS interval"]
+            if not close(d.tap_powers_linear, want_p):
+                return okc, [f"{where}: discretised powers {np.asarray(d.tap_powers_linear).tolist()} differ from {want_p.tolist()}"]
+            if d.Ts != ts or d.num_taps_with_padding != want_d[-1] + 1:
+                return okc, [f"{where}: Ts / num_taps_with_padding of the discretised profile are wrong"]
+            if raw.is_discretized or not (np.array_equal(raw.tap_delays, raw0[0]) and np.array_equal(raw.tap_powers_dB, raw0[1])):
+                return okc, [f"{where}: the raw profile object was changed by the discretisation"]
+            for (j, dj, snap) in kept:
+                if not (np.array_equal(dj.tap_delays, snap[0]) and np.array_equal(dj.tap_powers_linear, snap[1]) and dj.Ts == snap[2]):
+                    return okc, [f"{where}: the profile returned by request {j + 1} changed"]
+            kept.append((i, d, (np.array(d.tap_delays), np.array(d.tap_powers_linear), d.Ts)))
+            okc += 1
+    except Exception as ex:
+        return okc, [f"discretising a shared profile raised {type(ex).__name__}: {ex}"]
+    return okc, []
+
+
 def run_disc(job):
     """job = (cfg, [emitted disc cases]) -> (n_ok, violations)"""
     from pyphysim.channels import fading
@@ -723,7 +804,7 @@ def run_disc(job):
 
 
 # ------------------------------------------------------------------------------ planning
-ROOT = {"gpos": 0, "dir": False, "pl": 0, "has": False, "ai": 1}
+ROOT = {"gpos": 0, "dir": False, "pl": 0, "has": False, "ai": 1, "reqs": []}
 
 
 def plan_paths(c, edges, rng, mode):
@@ -766,6 +847,8 @@ def plan_paths(c, edges, rng, mode):
 def partition(cfgs, nparts):
     """split configurations into TLC processes of similar estimated cost"""
     def cost(c):
+        if c["kind"] == "dhist":
+            return 0.3
         if c["kind"] == "disc":
             return 0.002 * (len(c["qds"]) * len(c["pws"])) ** max(c["ntaps"] - 1, 0) * len(c["q1"]) * len(c["pws"]) + 0.05
         nr, nt = [x or 1 for x in c["ant"]]
@@ -795,7 +878,7 @@ DEV_EXPECT = {  # flag -> (violated property, LAWFAIL name or None)
     "ShiftByTapIndex": ("ChanLaw", "Conv"), "SwitchedNotTransposed": ("ChanLaw", "Conv"), "TailDropped": ("ChanLaw", "Len"),
     "SliceBlockSizeFloorDiv": ("BlockLaw", None), "MuSetPathlossNoneRaises": ("SetLaw", None),
     "PathlossZeroIsNone": ("ChanLaw", "Conv"), "OutputBufferReused": ("FrameLaw", "EarlierResultsUnchanged"),
-    "ArgumentScaledInPlace": ("FrameLaw", "ArgumentsUnchanged")}
+    "ArgumentScaledInPlace": ("FrameLaw", "ArgumentsUnchanged"), "DiscMemoRoundedTs": ("SharedLaw", None)}
 
 
 def dev_models(table, signals):
@@ -808,7 +891,8 @@ def dev_models(table, signals):
     # a SISO single-user configuration is enough (and much cheaper) for everything that is not about antenna indices
     small = base_cfg(1, "su", "two02", (0, 0), pls=[[[(1, 2)]], [[(0, 1)]]], maxpos=8,
                      ops=[op("T", 1, 2), op("T", 2, 2), op("F", 1, 2, 4), op("F", 2, 1, 4, "slice", sl(0, 4, 3)), op("PL", n=1), op("PL", n=2)])
-    return {d: [dc] if d.startswith("Disc") else [mu] if d.startswith("Mu") else [su] if d == "SwitchedNotTransposed" else [small]
+    dh = dhist_cfg(1, [[2, [1, 2]], [6, [1, 3]], [12, [1, 6]]], "dy", SCALES[:3], 2)
+    return {d: [dh] if d == "DiscMemoRoundedTs" else [dc] if d.startswith("Disc") else [mu] if d.startswith("Mu") else [su] if d == "SwitchedNotTransposed" else [small]
             for d in DEVS}
 
 
@@ -831,7 +915,7 @@ def account_devs(ctx, res):
         ctx.notes.setdefault("deviations_refuted_by_model", {})[d] = prop + (f".{law}" if law else "")
 
 
-ACTION_OF = {"T": "Transmit", "F": "TransmitFreq", "Gen": "GenerateIR", "Dir": "SetDirection", "PL": "SetPathloss", "Ant": "SetAntennas",
+ACTION_OF = {"T": "Transmit", "F": "TransmitFreq", "Gen": "GenerateIR", "Dir": "SetDirection", "PL": "SetPathloss", "Ant": "SetAntennas", "DiscS": "DiscretizeShared",
              "Disc": "DiscretizeCase"}
 
 
@@ -898,7 +982,7 @@ def run(ctx):
     edges = model_phase(ctx, cfgs, table, signals)
     rng = random.Random(ctx.seed)
     mode = {"depth": 3, "limit": 400, "walks": 60, "walk_len": 8, "max_len": 12} if thorough else {"walks": 6, "walk_len": 6}
-    jobs, djobs = [], []
+    jobs, djobs, hjobs = [], [], []
     for cid, es in sorted(edges.items()):
         c = by_id[cid]
         # de-duplicate (TLC may print a transition twice)
@@ -914,6 +998,13 @@ def run(ctx):
         if c["kind"] == "disc":
             for q in range(0, len(es), 400):
                 djobs.append((c, es[q:q + 400]))
+            continue
+        if c["kind"] == "dhist":
+            for e in es:
+                ctx.distinct.add((cid, graph.key(e["pre"]), graph.key(e["op"])))
+            g = graph.Graph([{"pre": e["pre"], "post": e["post"], "i": q} for q, e in enumerate(es)], label=lambda e: str(e["i"]))
+            for pth in g.transition_cover(graph.key(ROOT), max_len=8, rng=rng):
+                hjobs.append((c, [es[pe["i"]] for pe in g.path_edges(pth)]))
             continue
         for e in es:
             ctx.distinct.add((cid, graph.key(e["pre"]), graph.key(e["op"])))
@@ -937,6 +1028,15 @@ def run(ctx):
                 ctx.finding(f["id"], f"{c['kind']}/{c['pname']}/ant{c['ant']}: {f['what']}", case)
         for v in viol[:1]:
             ctx.violation(f"{c['kind']}/{c['pname']}/ant{c['ant']}/users{c['users']}: step {v['step']} {v.get('op', '')}: {v['what']}", case)
+    if not hjobs:
+        raise tlc.TlcError("TLC emitted no shared-profile discretisation histories")
+    for job, (okc, viol) in zip(hjobs, pool_map(run_dhist, hjobs, chunksize=max(1, len(hjobs) // 32))):
+        ctx.ok(n=okc)
+        ctx.trace_done()
+        for v in viol[:1]:
+            ctx.violation(f"shared profile {job[0]['prof']} (Ts {job[0]['ts']}): {v}",
+                          {"kind": "dhist", "cfg": job[0], "path": job[1]})
+    ctx.notes["shared_profile_histories"] = len(hjobs)
     dres = pool_map(run_disc, djobs)
     for job, (okc, viol, finds) in zip(djobs, dres):
         ctx.ok(n=okc)
@@ -976,6 +1076,12 @@ def run(ctx):
 
 def replay(ctx, data):
     c = data["case"]
+    if c["kind"] == "dhist":
+        okc, viol = run_dhist((c["cfg"], c["path"]))
+        ctx.ok(n=okc)
+        for v in viol:
+            ctx.violation(v, c)
+        return
     if c["kind"] == "disc":
         cfg = c["cfg"]
         okc, viol, finds = run_disc((cfg, [{"op": {"prof": c["case"]["prof"]}, "exp": c["case"]["exp"]}]))
